@@ -41,5 +41,19 @@ func updatePackageInfoFromArgs(packageInfo *packaging.PackageInfo, configArgs ma
 		return fmt.Errorf("error overriding package info: %w", err)
 	}
 
+	// an override must not leave a target without the directory that _package.yml is required to name
+	if packageInfo.Json != nil && packageInfo.Json.OutputDir == "" {
+		return fmt.Errorf("the 'json.outputDir' field must not be empty")
+	}
+	if packageInfo.Cpp != nil && packageInfo.Cpp.SourcesOutputDir == "" {
+		return fmt.Errorf("the 'cpp.sourcesOutputDir' field must not be empty")
+	}
+	if packageInfo.Python != nil && packageInfo.Python.OutputDir == "" {
+		return fmt.Errorf("the 'python.outputDir' field must not be empty")
+	}
+	if packageInfo.Matlab != nil && packageInfo.Matlab.OutputDir == "" {
+		return fmt.Errorf("the 'matlab.outputDir' field must not be empty")
+	}
+
 	return nil
 }
